@@ -16,7 +16,7 @@ EXHAUSTIVE = {"quick": "every dataset (3 elements, <=2 rankings) x (every insert
               "thorough": "same for <=3 rankings (every 3rd) and 4 elements (every 5th), random larger pairs"}
 ASSUMPTIONS = ["set iteration order is reached through insertion order and CPython's small-table collisions "
                "({0,8,16,24}); PYTHONHASHSEED=0 fixes string hashing; a second hash seed is used in thorough"]
-NAMINGS = ["collide", "letters", "ints", "neg"]
+NAMINGS = ["collide", "letters", "ints", "neg", "weird"]
 
 
 def _orders(D, variant):
@@ -96,7 +96,7 @@ def mutation_cases(dss, rng):
             ops.append({"op": "remove_elements", "S": [U[k % len(U)]]})
         for op in ops:
             for P in (D, list(reversed(D)), dss[rng.randrange(len(dss))]):
-                cases.append({"a": D, "oa": _orders(D, 0), "b": P, "ob": _orders(P, 1), "naming": NAMINGS[k % 4],
+                cases.append({"a": D, "oa": _orders(D, 0), "b": P, "ob": _orders(P, 1), "naming": NAMINGS[k % 5],
                               "ne": max(grids.universe(D) + grids.universe(P)), "ops": [op]})
     return cases
 
